@@ -405,7 +405,7 @@ pub fn generate_c13(tier: &str, rng: &mut Rng) -> Vec<String> {
     let step = if thorough { 1 } else { 1 };
     for n in (0..=u16::MAX as u32).step_by(step) { v.push(format!("int u16 {n}")); }
     for n in (i16::MIN as i32..=i16::MAX as i32).step_by(step) { v.push(format!("int i16 {n}")); }
-    let n_rand = if thorough { 400_000 } else { 6_000 };
+    let n_rand = if thorough { 1_500_000 } else { 6_000 };
     for _ in 0..n_rand {
         match rng.below(4) {
             0 => v.push(format!("int u32 {}", rand_n(rng, 32))),
@@ -463,7 +463,7 @@ pub fn generate_c14(tier: &str, rng: &mut Rng) -> Vec<String> {
         v.push(format!("optu64 {tag} 0"));
         for bit in 0..64 { v.push(format!("optu64 {tag} {}", 1u64 << bit)); }
     }
-    for _ in 0..(if thorough { 100_000 } else { 3_000 }) {
+    for _ in 0..(if thorough { 400_000 } else { 3_000 }) {
         let tag = if rng.chance(4, 5) { "some" } else { "none" };
         if rng.chance(1, 2) {
             let k = if rng.chance(1, 10) { zero } else { rng.key() };
